@@ -17,6 +17,16 @@ create_patch_centers followed by write_patches.  The requests observed during ev
 reader state machine of Model/ChunksBuf.v (rd_trace: iter() rewinds, next() advances; c18_hist_case, c18_pq_hist_case,
 c18_hist_sizes_case); every complete pass must request every record exactly once from the start whatever came before
 (C18_history_pass_requests / C18_history_every_pass; `rewind only when exhausted` is C18_lazy_rewind_refuted).
+
+Types of the parameters that steer reading (typed_plan and the typed jobs of every section): chunksize is handed over as a Python
+int, as a numpy integer of every width (also obtained as len // np.int64(k) or read from an array; 8- and 16-bit ones also with
+inputs beyond the range of the type), as a float with an integral value, as a bool, as None / 0 / False / not at all (the
+library's default); probe_size and patch_num likewise.  The model speaks about the VALUE (Model/ChunksBuf.v: configured_cs,
+capped_cs; C18_param_requests_by_value, C18_default_single_request, C18_typed_discard_refuted): the request log must be the
+model's slices for the value whatever its type.  A value that is not a plain Python int may be refused with a clean
+TypeError / ValueError / OverflowError (counted, not judged); what is accepted is judged.  Inputs too long for unary numbers
+(16-bit chunk sizes) are compared after division by a common factor (C18_requests_scale).  All request logs are capped
+(RunawayRequests): a pass that does not end is reported with its first request that is not a consecutive continuation.
 """
 import io
 import itertools
@@ -31,13 +41,14 @@ from sim import pool as simpool
 
 ALLOWED_AXIOMS = []
 TRUSTED = [
-    "logging proxies (harness side) around the data frame, h5py.File datasets and pyarrow ParquetFile; FITS access is not logged in the Catalog.from_file cases (astropy memory-maps the table; library behaviour); in the reader-history cases a proxy around astropy's HDU list logs the row slices taken from a column (data[col][a:b]), not what astropy reads for data[col]",
+    "logging proxies (harness side) around the data frame, h5py.File datasets and pyarrow ParquetFile; for FITS (Catalog.from_file and reader-history cases) a proxy around astropy's HDU list logs the row slices taken from a column (data[col][a:b]), not what astropy reads for data[col] (astropy memory-maps the table; library behaviour)",
+    "the library's default chunk size is read from yaw.catalog.readers.CHUNKSIZE; the checkers evaluate it as max 1 n (C18_param_requests_by_value: the requests are the same for every chunk size that is not below the input length)",
     "simulated multiprocessing (harness/sim/pool.py) for the runs with 2-4 workers: Pool.map executes the tasks of one chunk in the calling process in a harness-chosen order, the writer process runs at join(); the sizes of the tasks of every Pool.map call are logged by a subclass of the simulated pool",
 ]
 ASSUMPTIONS = ["a new pass is recognised by a request that starts again at row 0 (Catalog.from_* cases; in the reader-history "
                "cases the harness drives the operations itself and cuts the request log between them)"]
 RULE = ("cases = (source, n, cs, patch mode incl. generated centres = 2 passes, workers 1 | 2-4 on the simulated pool, "
-        "route by which the worker count is given); distinct by that tuple; "
+        "route by which the worker count is given, type in which chunksize / probe_size / patch_num are handed over); distinct by that tuple; "
         "non-trivial when n > cs (more than one request per pass); "
         "reader-history cases = (source, n, cs, history of operations on the reader object, final pass: for-loop | "
         "write_patches | create_patch_centers + write_patches, workers); non-trivial when some complete pass starts "
@@ -286,6 +297,61 @@ def pool_combos(ctx, rng):
     return out
 
 
+def typed_plan(ctx, rng):
+    """creations whose chunk size / probe size / number of patches is not a plain Python int: numpy integers of every width
+    (also obtained as len // np.int64(k) or read from an array), narrow ones within and beyond their range, floats with an
+    integral value, bools, nothing / None / falsy values (the default); every logged source, every patch mode,
+    sequentially and on the pool"""
+    out = []
+    modes2 = ["name", "centers"]
+    for rep in range(ctx.n(1, 3)):
+        for si, src in enumerate(("df", "hdf5", "fits")):
+            for kind in ["int64"] + rng.sample([k for k in NP_INT_KINDS if k != "int64"], 3):
+                cs = rng.choice([2, 3, 4, 5, 7])
+                n = rng.choice([2 * cs + 1, 3 * cs, 4 * cs - 1, 5 * cs + 2])
+                out.append(dict(n=n, cs=cs, workers=0, cst=kind, src=src, mode=rng.choice(modes2)))
+            cs = rng.choice([2, 3, 5])
+            out.append(dict(n=3 * cs + 1, cs=cs, workers=0, cst=rng.choice(FLOAT_KINDS), src=src, mode=rng.choice(modes2)))
+            out.append(dict(n=rng.choice([3, 5, 8]), cs=1, workers=0, cst=rng.choice(BOOL_KINDS), src=src, mode=rng.choice(modes2)))
+            out.append(dict(n=rng.choice([1, 4, 9, 30]), cs=0, workers=0, cst=rng.choice(DEFAULT_KINDS), src=src,
+                            mode=rng.choice(modes2)))
+            # 8-bit chunk sizes with inputs beyond the range of the type
+            kind = rng.choice(["int8", "uint8"])
+            mx = CS_KINDS[kind][2]
+            cs = rng.choice([100, 37, mx // 2 - 3, mx - 27, mx])
+            n = max(mx + 1, rng.choice([300, mx + 2, 2 * mx + 5, 3 * cs + 1]))
+            out.append(dict(n=n, cs=cs, workers=0, cst=kind, src=src, mode=rng.choice(modes2)))
+            # generated centres: a probing and a writing pass; the probe size comes in every type as well
+            cs = rng.choice([5, 7, 9])
+            out.append(dict(n=rng.choice([3 * cs + 1, 24, 31]), cs=cs, workers=0, cst=rng.choice(NP_WIDE_KINDS + ["int"]), src=src,
+                            mode="create", probe=PROBE_KINDS[(3 * rep + si + rng.randrange(2) * 6) % len(PROBE_KINDS)]))
+        # 16-bit chunk sizes with inputs beyond the range of the type (lengths in multiples of SCALE)
+        kind = rng.choice(["int16", "uint16"])
+        cs, n = rng.choice([(30000, 70000), (20000, 66000), (33000, 67000)] if kind == "uint16" else
+                           [(15000, 40000), (10000, 33000), (16000, 35000)])
+        out.append(dict(n=n, cs=cs, workers=0, cst=kind, src=rng.choice(["df", "hdf5", "fits"]), mode="name", scale=SCALE))
+        # the number of patches: a bool is an int; numpy integers and floats are (so far) refused
+        picks = [PNUM_KINDS[0]] + rng.sample(PNUM_KINDS[1:], 1 if ctx.quick() else 3)
+        for pk in picks:
+            cs = rng.choice([5, 7])
+            out.append(dict(n=26, cs=cs, workers=0, cst=rng.choice(["int", "int64"]), src=rng.choice(["df", "hdf5", "fits"]),
+                            mode="create", probe=("int", 20), pnum=pk))
+        # on the pool
+        for w in (2, 3):
+            for j, src in enumerate(rng.sample(["df", "hdf5", "fits"], 2)):
+                kind = rng.choice(NP_INT_KINDS)
+                cs = rng.choice([c for c in (2, 3, 5, 7, 9) if c % w])
+                n = rng.choice([2 * cs + 1, 5 * cs + 2, 3 * cs])
+                mode = "create" if (w, j) == (2 + rep % 2, 0) and n >= 24 else rng.choice(modes2)
+                out.append(dict(n=n, cs=cs, workers=w, cst=kind, src=src, mode=mode))
+            out.append(dict(n=rng.choice([7, 12]), cs=0, workers=w, cst=rng.choice(DEFAULT_KINDS), src=rng.choice(["df", "hdf5"]),
+                            mode=rng.choice(modes2)))
+            kind = rng.choice(["int8", "uint8"])
+            out.append(dict(n=rng.choice([260, 300]), cs=rng.choice([c for c in (50, 63, 99, 100) if c % w]), workers=w,
+                            cst=kind, src=rng.choice(["df", "hdf5", "fits"]), mode=rng.choice(modes2)))
+    return out
+
+
 def split_passes(log, n):
     passes, cur = [], None
     for kind, a, b in log:
@@ -296,6 +362,137 @@ def split_passes(log, n):
             passes.append(cur)
         cur.append((a, b))
     return passes
+
+
+# ---------------------------------------------------------------------------------------------------------------
+# TYPES of the parameters that steer reading (chunksize, probe_size, patch_num): the requests are a function of the VALUE
+# handed over (Model/ChunksBuf.v: configured_cs / capped_cs, C18_param_requests_by_value); nothing / a falsy value selects
+# the library's default (C18_default_single_request)
+# ---------------------------------------------------------------------------------------------------------------
+class RunawayRequests(Exception):
+    """harness guard: the source was asked far more often than any pass of the model asks (a pass that does not end)"""
+
+
+class CappedLog(list):
+    """request log with a cap: every proxy records through append / extend"""
+    cap = None
+
+    def append(self, x):
+        if self.cap is not None and len(self) >= self.cap:
+            raise RunawayRequests("more than %d requests" % self.cap)
+        list.append(self, x)
+
+    def extend(self, xs):
+        for x in xs:
+            self.append(x)
+
+
+def _np_item(dtype):
+    return lambda v: np.asarray([v, v], dtype=dtype)[0]      # a value read from an array
+
+
+# label -> (family, constructor from the value, largest value the type represents if that is within reach of an input)
+CS_KINDS = {
+    "int": ("int", int, None),
+    "int64": ("np-integer", np.int64, None),
+    "int32": ("np-integer", np.int32, None),
+    "uint32": ("np-integer", np.uint32, None),
+    "uint64": ("np-integer", np.uint64, None),
+    "intp": ("np-integer", np.intp, None),
+    "int16": ("np-integer", np.int16, 32767),
+    "uint16": ("np-integer", np.uint16, 65535),
+    "int8": ("np-integer", np.int8, 127),
+    "uint8": ("np-integer", np.uint8, 255),
+    "len//int64": ("np-integer", lambda v: (7 * v + 3) // np.int64(7), None),     # e.g. len(df) // np.int64(10)
+    "int64-array-item": ("np-integer", _np_item("i8"), None),
+    "int32-array-item": ("np-integer", _np_item("i4"), None),
+    "float": ("float", float, None),                                               # integral values only
+    "float64": ("float", np.float64, None),
+    "float32": ("float", np.float32, None),
+    "bool": ("bool", lambda v: True, None),                                        # value 1 only
+    "bool_": ("bool", lambda v: np.True_, None),
+    "omitted": ("default", None, None),
+    "None": ("default", lambda v: None, None),
+    "0": ("default", lambda v: 0, None),
+    "int64(0)": ("default", lambda v: np.int64(0), None),
+    "False": ("default", lambda v: False, None),
+}
+NP_INT_KINDS = [k for k, v in CS_KINDS.items() if v[0] == "np-integer"]
+NP_WIDE_KINDS = [k for k in NP_INT_KINDS if CS_KINDS[k][2] is None]
+FLOAT_KINDS = ["float", "float64", "float32"]
+BOOL_KINDS = ["bool", "bool_"]
+DEFAULT_KINDS = ["omitted", "None", "0", "int64(0)", "False"]
+# probe_size / patch_num: (label, value); the label says whether the value is a plain Python int
+PROBE_KINDS = [("omitted", None), ("int", 20), ("int", -1), ("int64", np.int64(20)), ("int32", np.int32(25)),
+               ("uint8", np.uint8(21)), ("uint16", np.uint16(30)), ("int64", np.int64(-1)), ("intp", np.intp(22)),
+               ("float", 20.0), ("float64", np.float64(24.0)), ("bool", True)]
+PNUM_KINDS = [("bool", True), ("int64", np.int64(2)), ("int32", np.int32(2)), ("uint8", np.uint8(2)), ("float", 2.0)]
+SCALE = 1000        # 16-bit chunk sizes beyond their range: lengths in multiples of SCALE (C18_requests_scale)
+
+
+def cs_kwargs(kind, v, key="chunksize"):
+    ctor = CS_KINDS[kind][1]
+    return {} if ctor is None else {key: ctor(v)}
+
+
+def cs_family(kind):
+    return CS_KINDS[kind][0]
+
+
+def cs_effective(kind, v, default):
+    """the chunk size as a Python int: the value, or the library's default when nothing / a falsy value is handed over"""
+    return default if cs_family(kind) == "default" else int(v)
+
+
+def cs_term(kind, v, n, default):
+    """the configured chunk size as a Coq term (n, v already divided by the scale)"""
+    if kind == "int":
+        return fq.nat(v)
+    if cs_family(kind) != "default":
+        return "(capped_cs %s (Some %s))" % (fq.nat(n), fq.nat(v))
+    if n > default:
+        return fq.nat(default)
+    return "(capped_cs %s %s)" % (fq.nat(n), "None" if kind in ("omitted", "None") else "(Some 0%nat)")
+
+
+def beyond_range(kind, v, n):
+    """does a counter of the chunk size's own type leave the range of that type during a pass over n records?"""
+    mx = CS_KINDS[kind][2]
+    return mx is not None and v > 0 and -(-n // v) * v > mx
+
+
+def request_cap(n, eff, passes):
+    return 64 + 4 * passes * (-(-n // max(1, eff)) + 1)
+
+
+def is_type_refusal(err, families):
+    """a parameter that is not a plain Python int (or nothing) was refused with a clean error: the property does not
+    promise that such a value is accepted"""
+    return (any(f not in ("int", "default") for f in families) and isinstance(err, (TypeError, ValueError, OverflowError))
+            and not isinstance(err, RunawayRequests))
+
+
+def signature(base, meta):
+    """structural signature: the kind of failure + the family of parameter types it was seen with"""
+    if meta.get("beyond_range") and base.startswith(("c18-pass-never-ends", "c18-raises")):
+        return "c18-narrow-dtype-counter-wraps"      # a narrow numpy integer, an input beyond its range, a pass without end
+    fams = meta.get("families") or ("int",)
+    for name, fam in zip(("chunksize", "probe_size", "patch_num"), fams):
+        if fam != "int":
+            return "%s:%s-as-%s" % (base, name, fam)
+    return base
+
+
+def first_bad_request(reqs, n, eff):
+    """first logged request of a pass that is not the consecutive, non-empty continuation of at most eff records"""
+    at = 0
+    for i, (a, b) in enumerate(reqs):
+        if a == 0 and i:
+            at = 0
+        if a != at or not a < min(b, n) or b - a > eff:
+            return i, (a, b)
+        at = min(b, n)
+    return None
 
 
 # ---------------------------------------------------------------------------------------------------------------
@@ -439,24 +636,46 @@ def history_cases(ctx, readers, terms, metas, idx):
             return rng.choice([2 * cs + 1, 3 * cs, 3 * cs + 1, 4 * cs - 1 if cs > 1 else 5, 5 * cs + 2])
         return rng.choice([max(1, cs - 1), cs, cs + 1, 2 * cs])
 
-    plan = []
+    default_cs = int(readers.CHUNKSIZE)
+
+    def kind_for(cs, typed):
+        """the type in which the chunk size is handed to the reader: the state machine is the same for every type"""
+        if not typed:
+            return "int"
+        pool = NP_INT_KINDS * 2 + FLOAT_KINDS + (BOOL_KINDS * 3 if cs == 1 else [])
+        return rng.choice(pool)
+
+    # deterministic probe (F29, repaired): a narrow numpy integer as chunk size and an input beyond the range of its type; the
+    # record counter must not take over the type (one plain pass over each kind of source)
+    plan = [("df", 300, 100, [], "direct", 0, "uint8"), ("hdf5", 300, 100, [], "direct", 0, "int8"),
+            ("random", 300, 100, [], "direct", 0, "uint8")]
     # create_patch_centers (treecorr) costs about a second: one final pass in nine (every source meets it in every run)
     terminals = ["write-centers", "write-name", "create", "direct", "write-centers", "write-name", "direct",
                  "write-centers", "write-name"]
     k = rng.randrange(9)
     for src in HIST_SOURCES:
-        for hist in hist_core():
+        for hi, hist in enumerate(hist_core()):
             cs = rng.choice([1, 2, 3, 4, 5, 7])
-            plan.append((src, shape(cs), cs, hist, terminals[k % 9], 0))
+            plan.append((src, shape(cs), cs, hist, terminals[k % 9], 0, kind_for(cs, (hi + k) % 3 == 0)))
             k += 1
-    for _ in range(ctx.n(45, 400)):
+    for _ in range(ctx.n(55, 480)):
         src = rng.choice(HIST_SOURCES)
         cs = rng.choice([1, 2, 3, 4, 5, 7, 9])
         n = shape(cs, big=rng.random() < 0.8)
         workers = rng.choice([0, 0, 0, 2, 3])
-        plan.append((src, n, cs, hist_random(rng, -(-n // cs), src), rng.choice(terminals), workers))
+        cst = kind_for(cs, rng.random() < 0.4)
+        if rng.random() < 0.08:        # nothing / a falsy value: the default, the whole (small) source is one chunk
+            cs, cst = 0, rng.choice(DEFAULT_KINDS)
+        elif rng.random() < 0.08:      # 8-bit chunk sizes, inputs beyond the range of the type
+            cst = rng.choice(["int8", "uint8"])
+            cs = rng.choice([100, 37, 64, 120])
+            n = rng.choice([300, CS_KINDS[cst][2] + 2, 2 * CS_KINDS[cst][2] + 5, 3 * cs + 1])
+        eff = cs_effective(cst, cs, default_cs)
+        plan.append((src, n, cs, hist_random(rng, -(-n // eff), src), rng.choice(terminals), workers, cst))
 
-    for (src, n, cs, hist, terminal, workers) in plan:
+    for (src, n, cs, hist, terminal, workers, cst) in plan:
+        eff = cs_effective(cst, cs, default_cs)
+        families = (cs_family(cst),)
         if src == "random":
             n = max(n, 24)                       # a probe of >= 20 generated points for create_patch_centers
             if terminal == "write-name":
@@ -468,11 +687,14 @@ def history_cases(ctx, readers, terms, metas, idx):
         name_mode = terminal == "write-name"
         cols = hist_columns(n)
         rowid = {float(v): i for i, v in enumerate(cols["ra"])}
-        colnames = dict(ra_name="ra", dec_name="dec", patch_name="pid" if name_mode else None, chunksize=cs, degrees=False)
-        log, groups, path, pseed = [], None, None, rng.randrange(10 ** 6)
+        colnames = dict(ra_name="ra", dec_name="dec", patch_name="pid" if name_mode else None, degrees=False, **cs_kwargs(cst, cs))
+        log, groups, path, pseed = CappedLog(), None, None, rng.randrange(10 ** 6)
         order = rng.choice(["random", "reverse", "identity"])
-        spec = dict(history=True, src=src, n=n, cs=cs, ops=[list(o) for o in hist], final=terminal, workers=workers,
-                    order=order, pool_seed=pseed)
+        spec = dict(history=True, src=src, n=n, cs=cs, cs_type=cst, ops=[list(o) for o in hist], final=terminal, workers=workers,
+                    order=order, pool_seed=pseed, families=families, beyond_range=beyond_range(cst, cs, n), eff_cs=eff)
+        if cst != "int":
+            ctx.bump("param-type:chunksize=%s" % cst)
+            ctx.bump("param-family:%s%s" % (families[0], "/beyond-range" if spec["beyond_range"] else ""))
         # ---- the reader object
         if src == "df":
             rd = readers.DataFrameReader(ProxyFrame(impl.make_df(cols), log), **colnames)
@@ -511,13 +733,14 @@ def history_cases(ctx, readers, terms, metas, idx):
         elif src == "parquet":
             path = os.path.join(ctx.workdir, "hist.pqt")
             table = pa.table(cols)
+            csg = max(1, min(eff, n))
             if rng.random() < 0.6:
-                rgs = rng.choice([1, max(1, cs - 1), cs, cs + 1, 2 * cs + 1, rng.randrange(1, 12)])
+                rgs = rng.choice([1, max(1, csg - 1), csg, csg + 1, 2 * csg + 1, rng.randrange(1, 12)])
                 groups = write_parquet(path, table, rgs, None)
             else:
                 g, left = [], n
                 while left:
-                    g.append(min(left, rng.randrange(1, 2 * cs + 3)))
+                    g.append(min(left, rng.randrange(1, 2 * csg + 3)))
                     left -= g[-1]
                 groups = write_parquet(path, table, 0, g)
             spec["groups"] = groups
@@ -526,7 +749,9 @@ def history_cases(ctx, readers, terms, metas, idx):
         else:
             gen = LoggedBox(10.0, 35.0, -5.0, 6.0, seed=pseed)
             gen.sizes = log
-            rd = readers.RandomReader(gen, n, cs)
+            rd = readers.RandomReader(gen, n, **cs_kwargs(cst, cs))
+        # operations of the history + the final ones, each at most a complete pass (Parquet: one more index than row groups)
+        log.cap = (len(hist) + 4) * (request_cap(n, eff, 1) + len(groups or ()))
         is_rows = src in ("df", "hdf5", "fits")
         mark = [0]
         prims, probes, state = [], [], dict(odd=[], stored_ok=True, refused=0, pools=0)
@@ -591,7 +816,8 @@ def history_cases(ctx, readers, terms, metas, idx):
 
         def probe_centres():
             size = rng.randrange(20, n + 1) if src == "random" else rng.choice([-1, 20, 25])
-            spec.setdefault("probe_sizes", []).append(size)
+            size = rng.choice([int, int, np.int64, np.int32, np.intp, np.int16])(size)     # the value counts, not the type
+            spec.setdefault("probe_sizes", []).append("%s(%d)" % (type(size).__name__, size))
             c = create_patch_centers(rd, 2, size)
             if src == "random":
                 probes.append((size if size >= 20 else None, cut()))
@@ -642,7 +868,7 @@ def history_cases(ctx, readers, terms, metas, idx):
                 emit([("RdNext", 0)], [])
             elif kind == "probe":
                 k_ = min(op[1], n)
-                rd.get_probe(k_)
+                rd.get_probe(rng.choice([int, int, np.int64, np.int32, np.uint8, np.uint16])(k_))
                 if src == "random":
                     probes.append((k_, cut()))
                 else:
@@ -673,27 +899,33 @@ def history_cases(ctx, readers, terms, metas, idx):
                 pass
             if path is not None and os.path.exists(path):
                 os.unlink(path)
-        partial = hist_partial_pass(n, cs, prims)
-        ctx.count(key=("history", src, n, cs, tuple(tuple(o) for o in hist), terminal, workers, tuple(groups or ())),
-                  nontrivial=partial, kind="history/%s/%s%s" % (src, terminal, "/pool" if state["pools"] else ""))
+        partial = hist_partial_pass(n, eff, prims)
+        ctx.count(key=("history", src, n, cs, cst, tuple(tuple(o) for o in hist), terminal, workers, tuple(groups or ())),
+                  nontrivial=partial, kind="history/%s/%s%s%s" % (src, terminal, "/pool" if state["pools"] else "",
+                                                                "" if cst == "int" else "/typed:%s" % families[0]))
         ctx.bump("history:%s" % ("pass_from_partial_state" if partial else "complete_or_fresh_only"))
         for o in hist:
             ctx.bump("history-op:%s" % o[0])
         spec["trace"] = [dict(op=p["op"], requests=p["seg"][:12], how=p["how"]) for p in prims][:24]
         if err is not None:
-            ctx.fail("c18-raises:%s" % type(err).__name__, "an operation of the history %s / final %s on a %s reader raised %r"
-                     % (hist, terminal, src, err), spec, case=idx)
+            if is_type_refusal(err, families):
+                ctx.bump("refused:%s-reader:chunksize=%s:%s" % (src, cst, type(err).__name__))
+                continue
+            ctx.fail(signature("c18-pass-never-ends" if isinstance(err, RunawayRequests) else "c18-raises:%s" % type(err).__name__, spec),
+                     "%s reader, %d records, chunk size %s(%d): an operation of the history %s / final %s raised %r; requests "
+                     "before that: %s" % (src, n, cst, cs, hist, terminal, err,
+                                          [(e[1], e[2]) if isinstance(e, tuple) else e for e in list(log)[:10]]), spec, case=idx)
             idx += 1
             continue
         if state["odd"]:
             if any(e[0] == "column" for e in state["odd"]):
-                ctx.fail("c18-whole-input", "the source was asked for a whole column at once: %s" % state["odd"][:3], spec, case=idx)
+                ctx.fail(signature("c18-whole-input", spec), "the source was asked for a whole column at once: %s" % state["odd"][:3], spec, case=idx)
             else:
                 ctx.disagree("c18-access-path-not-observable", idx, dict(spec, odd=state["odd"][:5]))
             idx += 1
             continue
         # which complete pass (if any) is not a complete pass: for the message only, the verdict is Coq's
-        want = [(lo, min(lo + cs, n)) for lo in range(0, n, cs)]
+        want = [(lo, min(lo + eff, n)) for lo in range(0, n, eff)]
         rows_ok = state["stored_ok"]
         bad_pass = None
         for p in prims:
@@ -716,20 +948,21 @@ def history_cases(ctx, readers, terms, metas, idx):
                     rows_ok = rows_ok and list(p["chunks"]) == seg
         probes_ok = all(seg == [k_] for k_, seg in probes if k_ is not None)
         ops_t = rd_ops_term(prims)
+        cs_t = cs_term(cst, cs, n, default_cs)
         if is_rows:
-            raw_ok = all(b - a <= cs for p in prims for a, b in p["seg"])
+            raw_ok = all(b - a <= eff for p in prims for a, b in p["seg"])
             terms.append("c18_hist_case %s %s %s %s %s %s" % (
-                fq.nat(n), fq.nat(cs), ops_t,
+                fq.nat(n), cs_t, ops_t,
                 fq.lst([fq.lst([fq.pair(fq.nat(a), fq.nat(min(b, n))) for a, b in p["seg"]]) for p in prims]),
                 fq.b(raw_ok), fq.b(rows_ok)))
         elif src == "parquet":
             terms.append("c18_pq_hist_case %s %s %s %s %s %s" % (
-                fq.nat(cs), fq.nlist(groups), ops_t, fq.lst([fq.nlist(p["seg"]) for p in prims]),
+                cs_t, fq.nlist(groups), ops_t, fq.lst([fq.nlist(p["seg"]) for p in prims]),
                 fq.lst([fq.opt(None if p["chunks"] is None else [len(c) for c in p["chunks"]], fq.nlist) for p in prims]),
                 fq.b(rows_ok)))
         else:
             terms.append("c18_hist_sizes_case %s %s %s %s %s" % (
-                fq.nat(n), fq.nat(cs), ops_t, fq.lst([fq.nlist(p["seg"]) for p in prims]), fq.b(rows_ok)))
+                fq.nat(n), cs_t, ops_t, fq.lst([fq.nlist(p["seg"]) for p in prims]), fq.b(rows_ok)))
         metas.append((idx, dict(spec, bad_pass=bad_pass, rows_ok=rows_ok, refused=state["refused"],
                                 probes=[(k_, seg[:6]) for k_, seg in probes], probes_ok=probes_ok)))
         if not probes_ok:
@@ -748,13 +981,14 @@ def history_verdict(ctx, i, c, meta):
     spec_bit, size_bit = (4, 0) if pq else (2, 4)
     if c & spec_bit:
         how, got = meta["bad_pass"] if meta["bad_pass"] else ("pass", None)
-        ctx.fail("c18-pass-after-history:%s" % how,
-                 "after the history %s on a %s reader (%d records, chunk size %d) the complete pass made by %s requested %s "
-                 "instead of every record once from the start%s"
-                 % (meta["ops"], meta["src"], meta["n"], meta["cs"], how, got,
+        ctx.fail(signature("c18-pass-after-history:%s" % how, meta),
+                 "after the history %s on a %s reader (%d records, chunk size %s(%d)) the complete pass made by %s requested %s "
+                 "instead of every record once from the start in portions of at most %d%s"
+                 % (meta["ops"], meta["src"], meta["n"], meta["cs_type"], meta["cs"], how, got if got is None else got[:12], meta["eff_cs"],
                     "" if meta["rows_ok"] else "; records are missing from what was handed over / stored"), meta, case=i)
     if size_bit and c & size_bit:
-        ctx.fail("c18-requests", "an operation on a reader with history requested more than a chunk at once (code %d)" % c, meta, case=i)
+        ctx.fail(signature("c18-requests", meta), "an operation on a %s reader with chunk size %s(%d) requested more than a chunk at once "
+                 "(code %d)" % (meta["src"], meta["cs_type"], meta["cs"], c), meta, case=i)
     if c & ~(spec_bit | size_bit):
         ctx.disagree("Cases_C18:history", i, dict(code=c, meta=meta))
 
@@ -776,9 +1010,14 @@ def run(ctx):
     idx = 0
     impl.set_threads(1)
     modes3 = ["create", "centers", "name"]
-    plan = [(n, cs, 0) for (n, cs) in combos for _ in range(reps)]
-    plan += [(n, cs, w) for (n, cs, w) in pool_combos(ctx, rng) for _ in range(ctx.n(1, 2))]
-    for k, (n, cs, workers) in enumerate(plan):
+    plan = [dict(n=n, cs=cs, workers=0) for (n, cs) in combos for _ in range(reps)]
+    plan += [dict(n=n, cs=cs, workers=w) for (n, cs, w) in pool_combos(ctx, rng) for _ in range(ctx.n(1, 2))]
+    plan += typed_plan(ctx, rng)
+    default_cs = int(readers.CHUNKSIZE)
+    for k, ent in enumerate(plan):
+        n, cs, workers = ent["n"], ent["cs"], ent["workers"]
+        cst, scale = ent.get("cst", "int"), ent.get("scale", 1)
+        probe, pnum = ent.get("probe", ("omitted", None)), ent.get("pnum", ("int", 2))
         if workers:
             # on the pool every source and patch mode comes round (generated centres = a probing and a writing pass)
             src = ["df", "hdf5"][(k // 3) % 2] if rng.random() < 0.8 else rng.choice(["df", "hdf5"])
@@ -786,23 +1025,31 @@ def run(ctx):
             via = "env" if rng.random() < 0.25 else "arg"
             order = rng.choice(["random", "reverse", "identity"])
         else:
-            src = rng.choice(["df", "df", "hdf5"])
+            src = rng.choice(["df", "df", "hdf5", "fits"])
             mode = rng.choice(["centers", "name", "create"]) if n >= 4 else rng.choice(["centers", "name"])
             via, order = "arg", None
+        src, mode = ent.get("src", src), ent.get("mode", mode)
         pseed = rng.randrange(10 ** 6)
-        ra = np.asarray([10.0 + (i * 37 % 101) / 4.0 for i in range(n)])
-        dec = np.asarray([-5.0 + (i * 53 % 89) / 8.0 for i in range(n)])
-        cols = {"ra": ra, "dec": dec, "pid": np.asarray([i % 2 for i in range(n)])}
-        kwargs = dict(ra_name="ra", dec_name="dec", chunksize=cs, max_workers=worker_arg(workers, via))
+        idxs = np.arange(n)
+        ra = 10.0 + (idxs * 37 % 101) / 4.0
+        dec = -5.0 + (idxs * 53 % 89) / 8.0
+        cols = {"ra": ra, "dec": dec, "pid": idxs % 2}
+        kwargs = dict(ra_name="ra", dec_name="dec", max_workers=worker_arg(workers, via), **cs_kwargs(cst, cs))
+        families = (cs_family(cst), "int" if probe[0] in ("int", "omitted") else probe[0],
+                    "int" if pnum[0] == "int" else pnum[0])
         passes_expected = 1
         if mode == "centers":
             kwargs["patch_centers"] = impl.AngularCoordinates(np.deg2rad([[15.0, 0.0], [30.0, 3.0]]))
         elif mode == "name":
             kwargs["patch_name"] = "pid"
         else:
-            kwargs["patch_num"] = 2
+            kwargs["patch_num"] = pnum[1]
+            if probe[0] != "omitted":
+                kwargs["probe_size"] = probe[1]
             passes_expected = 2
-        log = []
+        eff_cs = cs_effective(cst, cs, default_cs)  # DataReader.__init__ overwrites the min(n, cs) set by the file readers
+        log = CappedLog()
+        log.cap = request_cap(n, eff_cs, passes_expected)
         cache = impl.fresh_dir(ctx, "cat")
         err = None
         pc = pool_ctx(workers, order, pseed)
@@ -810,7 +1057,7 @@ def run(ctx):
             with pc as mp:
                 if src == "df":
                     impl.Catalog.from_dataframe(cache, ProxyFrame(impl.make_df(cols), log), **kwargs)
-                else:
+                elif src == "hdf5":
                     import h5py
                     path = os.path.join(ctx.workdir, "src.hdf5")
                     with h5py.File(path, "w") as f:
@@ -828,6 +1075,24 @@ def run(ctx):
                     finally:
                         readers.h5py = orig
                         os.unlink(path)
+                else:
+                    from astropy.io import fits as afits
+                    path = os.path.join(ctx.workdir, "src.fits")
+                    afits.BinTableHDU.from_columns([afits.Column(name="ra", format="D", array=ra),
+                                                    afits.Column(name="dec", format="D", array=dec),
+                                                    afits.Column(name="pid", format="K", array=cols["pid"])]).writeto(path, overwrite=True)
+                    orig = readers.fits
+
+                    class _Fits:
+                        @staticmethod
+                        def open(p, *a, **kw):
+                            return ProxyHDUList(orig.open(p, *a, **kw), log, "ra")
+                    readers.fits = _Fits
+                    try:
+                        impl.Catalog.from_file(cache, path, **kwargs)
+                    finally:
+                        readers.fits = orig
+                        os.unlink(path)
         except Exception as e:
             err = e
         finally:
@@ -836,10 +1101,18 @@ def run(ctx):
         eff_w = (mp.pool_sizes[0] or 1) if mp.pool_sizes else 1   # workers the implementation actually used
         tasks = [list(t) for t in mp.map_calls]
         spec = dict(n=n, cs=cs, src=src, mode=mode, workers=workers, via=via, order=order, pool_seed=pseed)
-        ctx.count(key=(n, cs, src, mode, workers, via), nontrivial=n > cs,
-                  kind="%s/%s%s" % (src, mode, "/pool%d" % workers if workers else ""))
+        if "cst" in ent:
+            spec.update(cs_type=cst, probe_size=(probe[0], repr(probe[1])), patch_num=(pnum[0], repr(pnum[1])), families=families,
+                        beyond_range=beyond_range(cst, cs, n), scale=scale)
+            ctx.bump("param-type:chunksize=%s" % cst)
+            ctx.bump("param-family:%s%s" % (families[0], "/beyond-range" if spec["beyond_range"] else ""))
+            if mode == "create":
+                ctx.bump("param-type:probe_size=%s,patch_num=%s" % (probe[0], pnum[0]))
+        ctx.count(key=(n, cs, src, mode, workers, via, cst, probe[0], repr(probe[1]), pnum[0]), nontrivial=n > eff_cs,
+                  kind="%s/%s%s%s" % (src, mode, "/pool%d" % workers if workers else "",
+                                      "/typed:%s" % families[0] if "cst" in ent else ""))
         if workers:
-            ctx.bump("pool:cs_mod_w_%s,n_%s_cs" % ("zero" if cs % workers == 0 else "nonzero", "gt" if n > cs else "le"))
+            ctx.bump("pool:cs_mod_w_%s,n_%s_cs" % ("zero" if eff_cs % workers == 0 else "nonzero", "gt" if n > eff_cs else "le"))
             if eff_w != workers:
                 ctx.bump("pool:workers_limited_by_environment")
         if err is not None:
@@ -847,16 +1120,29 @@ def run(ctx):
             if mode == "centers" and isinstance(err, (ValueError, RuntimeError)) and is_empty_patch_refusal(err, mp):
                 ctx.bump("skipped_empty_patch")
                 continue
-            ctx.fail("c18-raises:%s" % type(err).__name__, "valid creation raised %r (writer process: %s)"
-                     % (err, list(mp.process_exits)), spec, case=idx)
+            if is_type_refusal(err, families):
+                ctx.bump("refused:%s:chunksize=%s,probe_size=%s,patch_num=%s:%s" % (src, cst, probe[0], pnum[0], type(err).__name__))
+                continue
+            rows = [(l[1], l[2]) for l in log if l[0] == "rows" and l[1] is not None and l[2] is not None]
+            if isinstance(err, RunawayRequests):
+                bad = first_bad_request(rows, n, eff_cs)
+                if bad is None:      # the cap of the harness, not a request, ended the run: nothing is shown
+                    ctx.disagree("c18-request-cap", idx, dict(spec, log=rows[:20]))
+                else:
+                    ctx.fail(signature("c18-pass-never-ends", spec),
+                             "%d records, chunk size %s(%d): after %d requests the pass had not ended; request #%d is rows %s: "
+                             "not the consecutive continuation of at most %d records; first requests %s"
+                             % (n, cst, cs, len(rows), bad[0], bad[1], eff_cs, rows[:8]), dict(spec, log=rows[:20]), case=idx)
+            else:
+                ctx.fail(signature("c18-raises:%s" % type(err).__name__, spec), "valid creation raised %r (writer process: %s)"
+                         % (err, list(mp.process_exits)), spec, case=idx)
             idx += 1
             continue
-        eff_cs = cs  # DataReader.__init__ overwrites the min(n, cs) set by the file readers
         passes = split_passes(log, n)
         if passes is None:
             odd = [l for l in log if l[0] != "rows"]
             if any(l[0] == "column" for l in odd):
-                ctx.fail("c18-whole-input", "the source was asked for a whole column at once: %s" % odd[:3],
+                ctx.fail(signature("c18-whole-input", spec), "the source was asked for a whole column at once: %s" % odd[:3],
                          dict(spec, log=log[:20]), case=idx)
             else:
                 # an access path whose extent the logging proxy cannot see: the tie is broken, nothing is shown
@@ -864,18 +1150,22 @@ def run(ctx):
             idx += 1
             continue
         raw_ok = all((b - a) <= eff_cs for p in passes for a, b in p)
-        clipped = [[(a, min(b, n)) for a, b in p] for p in passes]
-        logterm = fq.lst([fq.lst([fq.pair(fq.nat(a), fq.nat(b)) for a, b in p]) for p in clipped])
+        clipped = [[(int(a), int(min(b, n))) for a, b in p] for p in passes]
+        # lengths beyond unary numbers: n, cs and (on agreement) every request are multiples of the scale
+        divisible = all(a % scale == 0 and b % scale == 0 for p in clipped for a, b in p)
+        logterm = fq.lst([fq.lst([fq.pair(fq.nat(a // scale), fq.nat(b // scale)) for a, b in p]) for p in clipped])
+        cs_t = cs_term(cst, cs // scale, n // scale, default_cs)
+        shown = [(int(a), int(b)) for p in passes for a, b in p][:40]
         if mp.pool_sizes:
             terms.append("(c18_pool_case %s %s %s %s %s %s + (if %s then 0 else 32))" % (
-                fq.nat(eff_w), fq.nat(n), fq.nat(eff_cs), fq.nat(passes_expected), logterm,
+                fq.nat(eff_w), fq.nat(n), cs_t, fq.nat(passes_expected), logterm,
                 fq.lst([fq.nlist(t) for t in tasks]), fq.b(raw_ok)))
-            metas.append((idx, dict(spec, pool=True, effective_workers=eff_w, log=log[:40], tasks=tasks[:40])))
+            metas.append((idx, dict(spec, pool=True, effective_workers=eff_w, log=shown, tasks=tasks[:40])))
         else:
-            terms.append("(c18_case %s %s %s %s + (if %s then 0 else 8))" % (
-                fq.nat(n), fq.nat(eff_cs), fq.nat(passes_expected), logterm, fq.b(raw_ok)))
-            metas.append((idx, dict(spec, log=log[:40])))
-        ctx.sample(dict(spec, requests=clipped, tasks=tasks[:6]), limit=3)
+            terms.append("(Nat.lor (c18_case %s %s %s %s) (if %s then 0 else 1) + (if %s then 0 else 8))" % (
+                fq.nat(n // scale), cs_t, fq.nat(passes_expected), logterm, fq.b(divisible), fq.b(raw_ok)))
+            metas.append((idx, dict(spec, log=shown)))
+        ctx.sample(dict(spec, requests=clipped if n < 100 else clipped[0][:4], tasks=tasks[:6]), limit=3)
         idx += 1
     # get_probe bookkeeping: rows returned for a probe of size k = the linspace indices
     for (n, cs, k) in [(10, 3, 4), (17, 5, 17), (9, 2, 3), (20, 7, 6), (5, 5, 2), (12, 4, 1)][: ctx.n(4, 6)]:
@@ -911,45 +1201,75 @@ def run(ctx):
         else:
             g = [rng.randrange(1, 12) for _ in range(rng.randrange(2, 8))]
             jobs.append((sum(g), rng.randrange(2, 14), None, g))
-    for (n, cs, rg, gsizes) in jobs:
+    jobs = [j + ("int",) for j in jobs]
+    # the chunk size in every type (the row-group layouts as above); 8-bit types also beyond their range
+    for _ in range(ctx.n(1, 4)):
+        for kind in ["int64"] + rng.sample([k for k in NP_INT_KINDS if k != "int64"], 3) + [rng.choice(FLOAT_KINDS)]:
+            if rng.random() < 0.5:
+                jobs.append((rng.randrange(9, 60), rng.randrange(2, 9), rng.randrange(1, 15), None, kind))
+            else:
+                g = [rng.randrange(1, 12) for _ in range(rng.randrange(3, 8))]
+                jobs.append((sum(g), rng.randrange(2, 9), None, g, kind))
+        jobs.append((rng.randrange(3, 9), 1, rng.randrange(1, 4), None, rng.choice(BOOL_KINDS)))
+        jobs.append((rng.randrange(5, 40), 0, rng.randrange(1, 15), None, rng.choice(DEFAULT_KINDS)))
+        kind = rng.choice(["int8", "uint8"])
+        jobs.append((rng.choice([300, CS_KINDS[kind][2] + 2, 2 * CS_KINDS[kind][2] + 5]), rng.choice([100, 37, 60, 120]),
+                     rng.choice([64, 50, 97, 300]), None, kind))
+    for (n, cs, rg, gsizes, cst) in jobs:
         path = os.path.join(ctx.workdir, "src.pqt")
         table = pa.table({"ra": np.arange(n, dtype="f8"), "dec": np.zeros(n)})
         if gsizes is not None:
             rg = 0
         groups = write_parquet(path, table, rg, gsizes)
-        reqs = []
+        eff_cs = cs_effective(cst, cs, default_cs)
+        families = (cs_family(cst),)
+        pspec = dict(parquet=(n, cs, rg), groups=groups, cs_type=cst, families=families, beyond_range=beyond_range(cst, cs, n))
+        reqs = CappedLog()
+        reqs.cap = request_cap(n, eff_cs, 1) + len(groups)
         perr = None
         chunks = []
         marks = []           # valid row-group requests made up to the delivery of each chunk
         try:
             with parquet_logged(readers, reqs):
-                with readers.ParquetReader(path, ra_name="ra", dec_name="dec", chunksize=cs, degrees=False) as rd:
+                with readers.ParquetReader(path, ra_name="ra", dec_name="dec", degrees=False, **cs_kwargs(cst, cs)) as rd:
                     for c in rd:
                         chunks.append([int(round(x)) for x in c["ra"]])
                         marks.append(len([r for r in reqs if r < len(groups)]))
+                        if len(chunks) > reqs.cap:
+                            raise RunawayRequests("more than %d chunks" % reqs.cap)
         except Exception as e:  # noqa: BLE001 - reading a valid file must not raise
             perr = e
         finally:
             os.unlink(path)
+        if cst != "int":
+            ctx.bump("param-type:chunksize=%s" % cst)
+            ctx.bump("param-family:%s%s" % (families[0], "/beyond-range" if pspec["beyond_range"] else ""))
         if perr is not None:
-            ctx.count(key=("parquet", n, cs, rg), kind="parquet/raised")
-            ctx.fail("c18-raises:%s" % type(perr).__name__, "reading a valid Parquet file (%d rows, row groups of %d, chunk size %d) raised %r "
-                     "after delivering chunks of %s rows" % (n, rg, cs, perr, [len(c) for c in chunks]),
-                     dict(parquet=(n, cs, rg), groups=groups, requests=reqs), case=idx)
+            ctx.count(key=("parquet", n, cs, rg, cst), kind="parquet/raised")
+            if is_type_refusal(perr, families):
+                ctx.bump("refused:parquet:chunksize=%s:%s" % (cst, type(perr).__name__))
+                continue
+            ctx.fail(signature("c18-pass-never-ends" if isinstance(perr, RunawayRequests) else "c18-raises:%s" % type(perr).__name__, pspec),
+                     "reading a valid Parquet file (%d rows, row groups of %d, chunk size %s(%d)) raised %r "
+                     "after delivering chunks of %s rows" % (n, rg, cst, cs, perr, [len(c) for c in chunks][:12]),
+                     dict(pspec, requests=list(reqs)[:40]), case=idx)
             idx += 1
             continue
         lens = [len(c) for c in chunks]
         flat = [x for c in chunks for x in c]
         ok_reqs = [r for r in reqs if r < len(groups)]           # the reader probes one index past the end
-        ctx.count(key=("parquet", n, cs, rg), nontrivial=len(groups) > 1 and n > cs, kind="parquet")
+        ctx.count(key=("parquet", n, cs, rg, cst), nontrivial=len(groups) > 1 and n > eff_cs,
+                  kind="parquet" if cst == "int" else "parquet/typed:%s" % families[0])
         loads = [b - a for a, b in zip([0] + marks[:-1], marks)]
+        cs_t = cs_term(cst, cs, n, default_cs)
         # flags: chunk lengths = model; every row once in order; every row group requested once in order;
-        # row groups requested per delivered chunk = model (no read-ahead) and the model's buffer bound
-        terms.append("code [c02_parquet_agree %s %s %s; %s; %s; Nat.eqb (c18_parquet_loads_case %s %s %s) 0]" % (
-            fq.nat(cs), fq.nlist(groups), fq.nlist(lens),
+        # row groups requested per delivered chunk = model (no read-ahead) and the model's buffer bound;
+        # chunks of 1..cs rows covering the file
+        terms.append("code [c02_parquet_agree %s %s %s; %s; %s; Nat.eqb (c18_parquet_loads_case %s %s %s) 0; c18_lens_bounded %s %s %s]" % (
+            cs_t, fq.nlist(groups), fq.nlist(lens),
             fq.b(flat == list(range(n))), fq.b(ok_reqs == list(range(len(groups)))),
-            fq.nat(cs), fq.nlist(groups), fq.nlist(loads)))
-        metas.append((idx, dict(parquet=(n, cs, rg), groups=groups, chunk_lens=lens, requests=reqs, loads_per_chunk=loads)))
+            cs_t, fq.nlist(groups), fq.nlist(loads), cs_t, fq.nlist(groups), fq.nlist(lens)))
+        metas.append((idx, dict(pspec, eff_cs=eff_cs, chunk_lens=lens, requests=list(reqs), loads_per_chunk=loads)))
         idx += 1
     # ---- Parquet through Catalog.from_file on the pool (2-4 workers): the chunks the reader delivers are what
     #      Pool.map receives (np.array_split of the chunk); same model as above for chunk lengths, row-group
@@ -963,9 +1283,12 @@ def run(ctx):
             else:
                 g_ = [rng.randrange(1, 12) for _ in range(rng.randrange(2, 8))]
                 n_, rg_ = sum(g_), None
-            pjobs.append((n_, cs, rg_, g_, w))
-        pjobs.append((3 * 2 * w + 1, 2 * w, w + 1, None, w))          # control: w divides cs
-    for k, (n, cs, rg, gsizes, workers) in enumerate(pjobs):
+            pjobs.append((n_, cs, rg_, g_, w, rng.choice(["int", "int"] + NP_INT_KINDS)))
+        pjobs.append((3 * 2 * w + 1, 2 * w, w + 1, None, w, "int"))          # control: w divides cs
+        pjobs.append((rng.randrange(5, 30), 0, rng.randrange(1, 9), None, w, rng.choice(DEFAULT_KINDS)))
+        kind = rng.choice(["int8", "uint8"])
+        pjobs.append((rng.choice([260, 300]), rng.choice([c for c in (50, 63, 99, 100) if c % w]), rng.choice([40, 64, 97]), None, w, kind))
+    for k, (n, cs, rg, gsizes, workers, cst) in enumerate(pjobs):
         mode = modes3[k % 3] if n >= 4 else modes3[1 + k % 2]
         via = "env" if rng.random() < 0.25 else "arg"
         order, pseed = rng.choice(["random", "reverse", "identity"]), rng.randrange(10 ** 6)
@@ -976,7 +1299,7 @@ def run(ctx):
         if gsizes is not None:
             rg = 0
         groups = write_parquet(path, table, rg, gsizes)
-        kwargs = dict(ra_name="ra", dec_name="dec", degrees=False, chunksize=cs, max_workers=worker_arg(workers, via))
+        kwargs = dict(ra_name="ra", dec_name="dec", degrees=False, max_workers=worker_arg(workers, via), **cs_kwargs(cst, cs))
         passes_expected = 1
         if mode == "centers":
             kwargs["patch_centers"] = impl.AngularCoordinates(np.deg2rad([[15.0, 0.0], [30.0, 3.0]]))
@@ -985,7 +1308,10 @@ def run(ctx):
         else:
             kwargs["patch_num"] = 2
             passes_expected = 2
-        reqs, marks, seen = [], [], []
+        eff_cs = cs_effective(cst, cs, default_cs)
+        families = (cs_family(cst),)
+        reqs, marks, seen = CappedLog(), [], []
+        reqs.cap = (request_cap(n, eff_cs, 1) + len(groups)) * passes_expected
         cache = impl.fresh_dir(ctx, "cat")
         perr = None
         pc = pool_ctx(workers, order, pseed)
@@ -1001,16 +1327,24 @@ def run(ctx):
         shutil.rmtree(cache, ignore_errors=True)
         eff_w = (mp.pool_sizes[0] or 1) if mp.pool_sizes else 1
         tasks = [list(t) for t in mp.map_calls]
-        spec = dict(parquet_pool=(n, cs, rg), groups=groups, mode=mode, workers=workers, via=via, order=order, pool_seed=pseed)
-        ctx.count(key=("parquet-pool", n, cs, tuple(groups), mode, workers, via), nontrivial=len(groups) > 1 and n > cs,
-                  kind="parquet/%s/pool%d" % (mode, workers))
-        ctx.bump("pool:cs_mod_w_%s,n_%s_cs" % ("zero" if cs % workers == 0 else "nonzero", "gt" if n > cs else "le"))
+        spec = dict(parquet_pool=(n, cs, rg), groups=groups, mode=mode, workers=workers, via=via, order=order, pool_seed=pseed,
+                    cs_type=cst, families=families, beyond_range=beyond_range(cst, cs, n), eff_cs=eff_cs)
+        ctx.count(key=("parquet-pool", n, cs, tuple(groups), mode, workers, via, cst), nontrivial=len(groups) > 1 and n > eff_cs,
+                  kind="parquet/%s/pool%d%s" % (mode, workers, "" if cst == "int" else "/typed:%s" % families[0]))
+        ctx.bump("pool:cs_mod_w_%s,n_%s_cs" % ("zero" if eff_cs % workers == 0 else "nonzero", "gt" if n > eff_cs else "le"))
+        if cst != "int":
+            ctx.bump("param-type:chunksize=%s" % cst)
+            ctx.bump("param-family:%s%s" % (families[0], "/beyond-range" if spec["beyond_range"] else ""))
         if perr is not None:
             if mode == "centers" and isinstance(perr, (ValueError, RuntimeError)) and is_empty_patch_refusal(perr, mp):
                 ctx.bump("skipped_empty_patch")
                 continue
-            ctx.fail("c18-raises:%s" % type(perr).__name__, "creating a catalog from a valid Parquet file raised %r (writer process: %s)"
-                     % (perr, list(mp.process_exits)), dict(spec, requests=reqs), case=idx)
+            if is_type_refusal(perr, families):
+                ctx.bump("refused:parquet:chunksize=%s:%s" % (cst, type(perr).__name__))
+                continue
+            ctx.fail(signature("c18-pass-never-ends" if isinstance(perr, RunawayRequests) else "c18-raises:%s" % type(perr).__name__, spec),
+                     "creating a catalog from a valid Parquet file (chunk size %s(%d)) raised %r (writer process: %s)"
+                     % (cst, cs, perr, list(mp.process_exits)), dict(spec, requests=list(reqs)[:40]), case=idx)
             idx += 1
             continue
         if not mp.pool_sizes:
@@ -1025,17 +1359,18 @@ def run(ctx):
         loads = [b - a for a, b in zip([0] + cum[:-1], cum)]
         lens = [sum(t) for t in tasks]
         rows_ok = seen == [float(x) for x in ra]
+        cs_t = cs_term(cst, cs, n, default_cs)
         # flags: chunk lengths = model; every row handed over once, in order; every row group once per pass, in order;
         # row groups requested per delivered chunk = model (+ buffer bound); chunks of 1..cs rows covering the file;
         # tasks = np.array_split of the chunk; number of passes
         terms.append("code [c02_parquet_agree %s %s %s; %s; %s; Nat.eqb (c18_parquet_loads_case %s %s %s) 0; "
                      "c18_lens_bounded %s %s %s; c18_tasks_agree %s %s %s; %s]" % (
-                         fq.nat(cs), fq.nlist(groups), fq.nlist(lens), fq.b(rows_ok), fq.b(reqs_ok),
-                         fq.nat(cs), fq.nlist(groups), fq.nlist(loads),
-                         fq.nat(cs), fq.nlist(groups), fq.nlist(lens),
+                         cs_t, fq.nlist(groups), fq.nlist(lens), fq.b(rows_ok), fq.b(reqs_ok),
+                         cs_t, fq.nlist(groups), fq.nlist(loads),
+                         cs_t, fq.nlist(groups), fq.nlist(lens),
                          fq.nat(eff_w), fq.nlist(lens), fq.lst([fq.nlist(t) for t in tasks]),
                          fq.b(len(pass_reqs) == passes_expected)))
-        metas.append((idx, dict(spec, effective_workers=eff_w, chunk_lens=lens, requests=reqs, loads_per_chunk=loads,
+        metas.append((idx, dict(spec, effective_workers=eff_w, chunk_lens=lens, requests=list(reqs), loads_per_chunk=loads,
                                 tasks=tasks[:40])))
         idx += 1
     # ---- the random generator as a source, on the pool: sizes of the generator calls of the writing pass
@@ -1049,47 +1384,107 @@ def run(ctx):
         def __call__(self, probe_size):
             self.sizes.append(int(probe_size))
             return super().__call__(probe_size)
+    rjobs = []
     for k in range(ctx.n(9, 45)):
         workers = (2, 3, 4)[k % 3]
         cs = rng.choice([c for c in (1, 2, 3, 5, 6, 7, 9, 10, 13) if c % workers]) if k % 5 else 2 * workers
-        n = rng.choice([cs + 1, 2 * cs + 1, 3 * cs, 5 * cs + 2, rng.randrange(8, 60)])
-        n = max(n, 8)
+        n = max(8, rng.choice([cs + 1, 2 * cs + 1, 3 * cs, 5 * cs + 2, rng.randrange(8, 60)]))
+        rjobs.append(dict(n=n, cs=cs, workers=workers))
+    # the chunk size / probe size in every type, sequentially and on the pool, with given and with generated centres
+    for rep in range(ctx.n(1, 4)):
+        kinds = ["int64"] + rng.sample([k_ for k_ in NP_INT_KINDS if k_ != "int64"], 4) + [rng.choice(FLOAT_KINDS), "int"]
+        for j, kind in enumerate(kinds):
+            workers = (0, 2, 3, 0, 4, 0, 0)[(j + rep) % 7]
+            cs = rng.choice([c for c in (2, 3, 5, 7, 9) if c % (workers or 1) or not workers])
+            n = max(8, rng.choice([2 * cs + 1, 3 * cs, 5 * cs + 2]))
+            rjobs.append(dict(n=n, cs=cs, workers=workers, cst=kind))
+        rjobs.append(dict(n=rng.randrange(8, 14), cs=1, workers=rng.choice([0, 2]), cst=rng.choice(BOOL_KINDS)))
+        rjobs.append(dict(n=rng.randrange(8, 40), cs=0, workers=rng.choice([0, 3]), cst=rng.choice(DEFAULT_KINDS)))
+        kind = rng.choice(["int8", "uint8"])
+        rjobs.append(dict(n=rng.choice([300, CS_KINDS[kind][2] + 2, 2 * CS_KINDS[kind][2] + 5]), cs=rng.choice([100, 37, 63, 120]),
+                          workers=rng.choice([0, 0, 2]), cst=kind))
+        kind = rng.choice(["int16", "uint16"])
+        cs, n = rng.choice([(30000, 70000), (20000, 66000)] if kind == "uint16" else [(15000, 40000), (10000, 33000)])
+        rjobs.append(dict(n=n, cs=cs, workers=0, cst=kind, scale=SCALE))
+        for j in range(ctx.n(2, 4)):     # generated centres: one call for the probe, then the writing pass
+            cs = rng.choice([5, 7, 9])
+            n = rng.randrange(30, 50)
+            probe = PROBE_KINDS[(rep * 5 + j * 3 + rng.randrange(3)) % len(PROBE_KINDS)]
+            rjobs.append(dict(n=n, cs=cs, workers=(0, 2)[j % 2], cst=rng.choice(["int", "int64", "uint16", "int32"]), mode="create",
+                              probe=probe))
+    for ent in rjobs:
+        n, cs, workers = ent["n"], ent["cs"], ent["workers"]
+        cst, scale, mode, probe = ent.get("cst", "int"), ent.get("scale", 1), ent.get("mode", "centers"), ent.get("probe", ("omitted", None))
         via = "env" if rng.random() < 0.25 else "arg"
         order, pseed = rng.choice(["random", "reverse", "identity"]), rng.randrange(10 ** 6)
+        eff_cs = cs_effective(cst, cs, default_cs)
+        families = (cs_family(cst), "int" if probe[0] in ("int", "omitted") else probe[0])
         gen = LoggedBox(10.0, 35.0, -5.0, 6.0, seed=pseed)
-        gen.sizes = sizes = []
+        gen.sizes = sizes = CappedLog()
+        sizes.cap = request_cap(n, eff_cs, 1) + 1
         cache = impl.fresh_dir(ctx, "cat")
         rerr = None
         mw = worker_arg(workers, via)
         pc = pool_ctx(workers, order, pseed)
+        kwargs = dict(max_workers=mw, **cs_kwargs(cst, cs))
+        if mode == "create":
+            kwargs["patch_num"] = 2
+            if probe[0] != "omitted":
+                kwargs["probe_size"] = probe[1]
+        else:
+            kwargs["patch_centers"] = impl.AngularCoordinates(np.deg2rad([[15.0, 0.0], [30.0, 3.0]]))
         try:
             with pc as mp:
-                impl.Catalog.from_random(cache, gen, n, chunksize=cs, max_workers=mw,
-                                         patch_centers=impl.AngularCoordinates(np.deg2rad([[15.0, 0.0], [30.0, 3.0]])))
-        except Exception as e:  # noqa: BLE001
-            rerr = e
+                impl.Catalog.from_random(cache, gen, n, **kwargs)
+        except Exception as e_:  # noqa: BLE001
+            rerr = e_
         finally:
             impl.set_threads(1)
         shutil.rmtree(cache, ignore_errors=True)
         eff_w = (mp.pool_sizes[0] or 1) if mp.pool_sizes else 1
         tasks = [list(t) for t in mp.map_calls]
-        spec = dict(random_pool=(n, cs), workers=workers, via=via, order=order, pool_seed=pseed)
-        ctx.count(key=("random-pool", n, cs, workers, via), nontrivial=n > cs, kind="random/centers/pool%d" % workers)
-        ctx.bump("pool:cs_mod_w_%s,n_%s_cs" % ("zero" if cs % workers == 0 else "nonzero", "gt" if n > cs else "le"))
+        spec = dict(random_pool=(n, cs), workers=workers, via=via, order=order, pool_seed=pseed, mode=mode, cs_type=cst,
+                    probe_size=(probe[0], repr(probe[1])), families=families, beyond_range=beyond_range(cst, cs, n), scale=scale,
+                    eff_cs=eff_cs)
+        ctx.count(key=("random-pool", n, cs, workers, via, cst, mode, probe[0], repr(probe[1])), nontrivial=n > eff_cs,
+                  kind="random/%s%s%s" % (mode, "/pool%d" % workers if workers else "", "" if "cst" not in ent else "/typed:%s" % families[0]))
+        if workers:
+            ctx.bump("pool:cs_mod_w_%s,n_%s_cs" % ("zero" if eff_cs % workers == 0 else "nonzero", "gt" if n > eff_cs else "le"))
+        if "cst" in ent:
+            ctx.bump("param-type:chunksize=%s" % cst)
+            ctx.bump("param-family:%s%s" % (families[0], "/beyond-range" if spec["beyond_range"] else ""))
+            if mode == "create":
+                ctx.bump("param-type:probe_size=%s,patch_num=int" % probe[0])
         if rerr is not None:
             if isinstance(rerr, (ValueError, RuntimeError)) and is_empty_patch_refusal(rerr, mp):
                 ctx.bump("skipped_empty_patch")
                 continue
-            ctx.fail("c18-raises:%s" % type(rerr).__name__, "creating a catalog from a random generator raised %r (writer process: %s)"
-                     % (rerr, list(mp.process_exits)), spec, case=idx)
+            if mode == "create" and isinstance(rerr, ValueError) and "cannot exceed number of records" in str(rerr):
+                ctx.bump("refused:random:probe_larger_than_sample")       # a probe size below 10 per patch means 100000 * sqrt(patches)
+                continue
+            if is_type_refusal(rerr, families):
+                ctx.bump("refused:random:chunksize=%s,probe_size=%s:%s" % (cst, probe[0], type(rerr).__name__))
+                continue
+            ctx.fail(signature("c18-pass-never-ends" if isinstance(rerr, RunawayRequests) else "c18-raises:%s" % type(rerr).__name__, spec),
+                     "creating a catalog of %d points from a random generator with chunk size %s(%d) raised %r (writer process: %s); "
+                     "sizes of the generator calls: %s" % (n, cst, cs, rerr, list(mp.process_exits), list(sizes)[:12]),
+                     dict(spec, call_sizes=list(sizes)[:40]), case=idx)
             idx += 1
             continue
-        # flags: call sizes = model; calls of 1..cs records adding up to n; tasks = np.array_split of each chunk
-        terms.append("code [c16_sizes_agree %s %s %s; c18_lens_bounded %s [%s] %s; %s]" % (
-            fq.nat(n), fq.nat(cs), fq.nlist(sizes), fq.nat(cs), fq.nat(n), fq.nlist(sizes),
-            ("c18_tasks_agree %s %s %s" % (fq.nat(eff_w), fq.nlist(sizes), fq.lst([fq.nlist(t) for t in tasks])))
-            if mp.pool_sizes else "true"))
-        metas.append((idx, dict(spec, effective_workers=eff_w, call_sizes=sizes, tasks=tasks[:40])))
+        calls = [int(x) for x in sizes]
+        probe_ok = True
+        if mode == "create":       # the probe is one call of the generator (not a statement of C18), then the writing pass
+            probe_ok = bool(calls) and (probe[0] == "omitted" or int(probe[1]) < 20 or calls[0] == int(probe[1]))
+            calls = calls[1:]
+        divisible = all(x % scale == 0 for x in calls)
+        scaled = [x // scale for x in calls]
+        cs_t = cs_term(cst, cs // scale, n // scale, default_cs)
+        # flags: call sizes = model; calls of 1..cs records adding up to n; tasks = np.array_split of each chunk; the probe
+        terms.append("code [c16_sizes_agree %s %s %s && %s; c18_lens_bounded %s [%s] %s; %s; %s]" % (
+            fq.nat(n // scale), cs_t, fq.nlist(scaled), fq.b(divisible), cs_t, fq.nat(n // scale), fq.nlist(scaled),
+            ("c18_tasks_agree %s %s %s" % (fq.nat(eff_w), fq.nlist(calls), fq.lst([fq.nlist(t) for t in tasks])))
+            if mp.pool_sizes and scale == 1 else "true", fq.b(probe_ok)))
+        metas.append((idx, dict(spec, effective_workers=eff_w, call_sizes=[int(x) for x in sizes][:60], tasks=tasks[:40])))
         idx += 1
     idx = history_cases(ctx, readers, terms, metas, idx)
     codes = ctx.shards("Cases_C18", HEADER, terms, shard=100)
@@ -1100,50 +1495,65 @@ def run(ctx):
             history_verdict(ctx, i, c, meta)
             continue
         if "random_pool" in meta:
-            if c & 2:
-                n_, cs_ = meta["random_pool"]
-                ctx.fail("c18-requests", "the generator was not asked for consecutive portions of 1..%d records adding up to %d: %s"
-                         % (cs_, n_, meta["call_sizes"][:12]), meta, case=i)
-            if c & 1 or c & 4:
+            n_, cs_ = meta["random_pool"][0], meta["eff_cs"]
+            calls_ = meta["call_sizes"][1:] if meta["mode"] == "create" else meta["call_sizes"]
+            # lengths divided by the scale: the verdict of the model is confirmed on the lengths as logged
+            confirmed = meta["scale"] == 1 or not (all(1 <= x <= cs_ for x in calls_) and sum(calls_) == n_)
+            if c & 2 and confirmed:
+                ctx.fail(signature("c18-requests", meta), "chunk size %s(%d): the generator was not asked for consecutive portions of 1..%d "
+                         "records adding up to %d: %s" % (meta["cs_type"], meta["random_pool"][1], cs_, n_, calls_[:12]), meta, case=i)
+            if c & 1 or c & 4 or c & 8 or (c & 2 and not confirmed):
                 ctx.disagree("Cases_C18:random-pool", i, dict(code=c, meta=meta))
             continue
         if "parquet_pool" in meta:
             if c & 2 or c & 4 or c & 64:
-                ctx.fail("c18-requests", "row groups are not requested once per pass in file order / rows not handed over once "
-                         "in order (code %d)" % c, meta, case=i)
+                ctx.fail(signature("c18-requests", meta), "row groups are not requested once per pass in file order / rows not handed over "
+                         "once in order (code %d)" % c, meta, case=i)
             if c & 16:
-                ctx.fail("c18-parquet-chunks", "the reader delivered chunks of %s rows for a chunk size of %d (file of %d rows)"
-                         % (meta["chunk_lens"][:12], meta["parquet_pool"][1], meta["parquet_pool"][0]), meta, case=i)
+                ctx.fail(signature("c18-parquet-chunks", meta), "the reader delivered chunks of %s rows for a chunk size of %s(%d) (file of %d rows)"
+                         % (meta["chunk_lens"][:12], meta["cs_type"], meta["parquet_pool"][1], meta["parquet_pool"][0]), meta, case=i)
             if (c & 8) and not (c & (2 | 4 | 16 | 64)):
                 g, marks_ = meta["groups"], meta["loads_per_chunk"]
-                n_, cs_ = sum(g), meta["parquet_pool"][1]
+                n_, cs_ = sum(g), meta["eff_cs"]
                 if bool(marks_) and marks_[0] == len(g) and n_ > cs_ + max(g):
-                    ctx.fail("c18-whole-input", "all %d row groups (%d rows) were requested for the first chunk of %d rows" % (len(g), n_, cs_),
-                             meta, case=i)
+                    ctx.fail(signature("c18-whole-input", meta), "all %d row groups (%d rows) were requested for the first chunk of %d rows"
+                             % (len(g), n_, cs_), meta, case=i)
             if c & (1 | 8 | 32):
                 ctx.disagree("Cases_C18:parquet-pool", i, dict(code=c, meta=meta))
             continue
-        if "parquet" in meta and (c & 8) and not (c & 6):
-            # rows and request order are right, but the row groups were not requested exactly when the model
-            # requests them: a failure of the property only if the whole file was buffered at once
+        if "parquet" in meta:
             g, marks_ = meta["groups"], meta["loads_per_chunk"]
-            n_, cs_ = sum(g), meta["parquet"][1]
-            whole = bool(marks_) and marks_[0] == len(g) and n_ > cs_ + max(g)
-            if whole:
-                ctx.fail("c18-whole-input", "all %d row groups (%d rows) were requested for the first chunk of %d rows" % (len(g), n_, cs_),
-                         meta, case=i)
-            ctx.disagree("Cases_C18:parquet-loads", i, dict(code=c, meta=meta))
+            n_, cs_ = sum(g), meta["eff_cs"]
+            if c & 2 or c & 4:
+                ctx.fail(signature("c18-requests", meta), "chunk size %s(%d): row groups are not requested once in file order / rows not "
+                         "delivered once in order (code %d)" % (meta["cs_type"], meta["parquet"][1], c), meta, case=i)
+            if c & 16:
+                ctx.fail(signature("c18-parquet-chunks", meta), "the reader delivered chunks of %s rows for a chunk size of %s(%d) (file of %d rows)"
+                         % (meta["chunk_lens"][:12], meta["cs_type"], meta["parquet"][1], n_), meta, case=i)
+            if (c & 8) and not (c & (2 | 4 | 16)):
+                # rows and request order are right, but the row groups were not requested exactly when the model
+                # requests them: a failure of the property only if the whole file was buffered at once
+                if bool(marks_) and marks_[0] == len(g) and n_ > cs_ + max(g):
+                    ctx.fail(signature("c18-whole-input", meta), "chunk size %s(%d): all %d row groups (%d rows) were requested for the "
+                             "first chunk of %d rows" % (meta["cs_type"], meta["parquet"][1], len(g), n_, cs_), meta, case=i)
+            if c & (1 | 8):
+                ctx.disagree("Cases_C18:parquet-loads", i, dict(code=c, meta=meta))
             continue
         if meta.get("pool"):
             # bits: 1 requests = model, 2 spec, 4 passes, 8 tasks = model, 16 requested = handed over, 32 raw slice length
             if c & 2 or c & 4 or c & 32:
-                ctx.fail("c18-requests", "requests are not consecutive slices of at most the chunk size covering the source "
-                         "once per pass, with %d workers (code %d)" % (meta["effective_workers"], c), meta, case=i)
+                ctx.fail(signature("c18-requests", meta), "%s, %d records, chunk size %s(%d): the requests %s are not consecutive slices "
+                         "of at most the chunk size covering the source once per pass, with %d workers (code %d)"
+                         % (meta["src"], meta["n"], meta.get("cs_type", "int"), meta["cs"], meta["log"][:8], meta["effective_workers"], c),
+                         meta, case=i)
             if c & 1 or c & 8 or c & 16:
                 ctx.disagree("Cases_C18:pool", i, dict(code=c, meta=meta))
             continue
-        if c & 2 or c & 4 or c & 8:
-            ctx.fail("c18-requests", "requests are not consecutive slices of at most the chunk size covering the source "
-                     "once per pass (code %d)" % c, meta, case=i)
-        if c & 1:
+        # lengths divided by the scale (16-bit chunk sizes): the verdict of the model is confirmed on the requests as logged
+        confirmed = meta.get("scale", 1) == 1 or first_bad_request(meta["log"], meta["n"], meta["cs"]) is not None
+        if (c & 2 or c & 4 or c & 8) and confirmed:
+            ctx.fail(signature("c18-requests", meta), "%s, %d records, chunk size %s(%d): the requests %s are not consecutive slices of at "
+                     "most the chunk size covering the source once per pass (code %d)"
+                     % (meta["src"], meta["n"], meta.get("cs_type", "int"), meta["cs"], meta["log"][:8], c), meta, case=i)
+        if c & 1 or not confirmed:
             ctx.disagree("Cases_C18", i, dict(code=c, meta=meta))
